@@ -55,6 +55,8 @@ pub fn sched_engine(shape: &str, prop: &str, max_ops: usize) -> Box<dyn Engine> 
         "bump8" => Box::new(SchedEngine::<Bump8>::new(prop, max_ops)),
         "plain16" => Box::new(SchedEngine::<Plain16>::new(prop, max_ops)),
         "tokz" => Box::new(SchedEngine::<TokZ<0>>::new(prop, max_ops)),
+        // a payload of more than 4 KiB (code paths keyed on size_of::<T>())
+        "big4k" => Box::new(SchedEngine::<Big<4200>>::new(prop, max_ops)),
         _ => Box::new(SchedEngine::<Tok8>::new(prop, max_ops)),
     }
 }
